@@ -167,11 +167,15 @@ def line_minimization(
                 grp = hdf["wf"]
                 for k in grp.keys():
                     wf.parameters[k] = gpu.cp.asarray(grp[k])
-            if "iteration" in hdf.keys():
-                iteration_offset = np.max(hdf["iteration"][...])
-            if "sub_iteration" in hdf.keys():
-                sub_iteration_offset = hdf["sub_iteration"][-1] + 1
-            coords.load_hdf(hdf)
+            import pyqmc.method.hdftools as hdftools
+
+            nrecorded = hdftools.committed_rows(hdf, "iteration")
+            if "iteration" in hdf.keys() and nrecorded > 0:
+                iteration_offset = np.max(hdf["iteration"][:nrecorded])
+            if "sub_iteration" in hdf.keys() and nrecorded > 0:
+                sub_iteration_offset = hdf["sub_iteration"][nrecorded - 1] + 1
+            if nrecorded > 0:
+                coords.load_hdf(hdf)
 
     else:  # not restarting -- VMC warm up period
         if verbose:
